@@ -6,6 +6,8 @@ import (
 	"fmt"
 	"golang.org/x/tools/go/ssa"
 	"os"
+	"path/filepath"
+	"runtime"
 	"runtime/debug"
 	"strconv"
 	"strings"
@@ -59,6 +61,31 @@ func main() {
 		os.Exit(2)
 	}
 	t0 := time.Now()
+	// a verdict must arrive: an analysis that does not finish within its budget (time or memory) is reported as
+	// not decided - which fails the check - instead of hanging
+	budget := 20 * time.Minute
+	if *tier == "thorough" {
+		budget = 4 * time.Hour
+	}
+	bail := func(why string) {
+		replay := filepath.Join(*verif, "evidence", *prop+".violations.json")
+		os.MkdirAll(filepath.Dir(replay), 0o755)
+		os.WriteFile(replay, []byte(fmt.Sprintf("{\"property\": %q, \"undecided\": [{\"rule\": \"analysis-budget\", \"message\": %q}]}\n", *prop, why)), 0o644)
+		fmt.Printf("  UNDECIDED analysis-budget [] %s: UNDECIDED: %s\n", *prop, why)
+		fmt.Printf("VIOLATION property=%s replay=%s\n", *prop, replay)
+		os.Exit(1)
+	}
+	time.AfterFunc(budget, func() { bail(fmt.Sprintf("the analysis did not finish within %s", budget)) })
+	go func() {
+		var ms runtime.MemStats
+		for {
+			time.Sleep(2 * time.Second)
+			runtime.ReadMemStats(&ms)
+			if ms.Sys > 24<<30 {
+				bail("the analysis needs more than 24 GiB of memory")
+			}
+		}
+	}()
 	ctx := report.NewCtx(*prop, *tier)
 	cmd := "bin/cvsslint " + strings.Join(os.Args[1:], " ")
 	variants := []load.Variant{{Name: "default"}}
